@@ -163,10 +163,13 @@ func isReflectValue(t types.Type) bool {
 // structSort declares (once) a datatype for a struct type. Structs outside the analysed packages
 // are opaque (one uninterpreted sort per type), except a few that are modelled.
 func (w *World) structSort(t types.Type) string {
+	key := w.typeStr(t)
 	if isReflectValue(t) {
+		if _, ok := w.structInfo[key]; !ok {
+			w.structInfo[key] = &structInfo{sort: "RV"}
+		}
 		return "RV"
 	}
-	key := w.typeStr(t)
 	if si, ok := w.structInfo[key]; ok {
 		return si.sort
 	}
@@ -273,9 +276,13 @@ func (w *World) zero(t types.Type) string {
 	case "Unit":
 		return "unit"
 	}
+	if s == "RV" {
+		w.declFun("rv_zero", nil, "RV")
+		return "rv_zero"
+	}
 	if st, ok := t.Underlying().(*types.Struct); ok {
 		si := w.structOf(t)
-		if si.ctor != "" {
+		if si != nil && si.ctor != "" {
 			if len(si.fields) == 0 {
 				return si.ctor
 			}
